@@ -224,6 +224,19 @@ def memsim_ops(config, flags):
         for sh in ('7', '3,3', '2,3,5', '17'):
             reg(f'op_tovector<{t},{sh}>', 'exempt', 'F_EXEMPT')
             reg(f'op_print<{t},{sh}>', 'exempt', 'F_EXEMPT')
+    # complex element types (own SIMD wrappers with interleaved real/imaginary loads and stores)
+    for t in ('std::complex<float>', 'std::complex<double>'):
+        for n in range(1, 20):
+            reg(f'op_map_cx<{t},{n}>', 'complex_map', 'F_ANYALIGN', keep=n in (3, 5, 9, 17))
+            if n % 2 == 1:
+                reg(f'op_own_cx<{t},{n}>', 'complex_own')
+        for (m, n) in ((2, 3), (3, 3), (3, 5), (2, 9), (5, 7)):
+            reg(f'op_map_cx<{t},{m},{n}>', 'complex_map', 'F_ANYALIGN')
+            reg(f'op_transpose<{t},{m},{n}>', 'complex_transpose')
+            reg(f'op_map_transpose<{t},{m},{n}>', 'complex_transpose', 'F_ANYALIGN')
+        for (m, k, n) in ((2, 2, 2), (3, 3, 3), (2, 5, 3), (4, 3, 5), (3, 2, 9), (5, 5, 1)):
+            reg(f'op_matmul<{t},{m},{k},{n}>', 'complex_matmul', keep=True)
+            reg(f'op_map_matmul<{t},{m},{k},{n}>', 'complex_matmul', 'F_ANYALIGN')
     for t in ('float', 'double', 'int'):
         for i, (m, k, n) in enumerate(matmul_triples(t)):
             special = n >= 20 or (m == n and m in (2, 3, 4, 8) and k != m)
